@@ -144,7 +144,7 @@ def all_modes():
 
 
 ENTRIES = ['run', 'call', 'evaluate', 'import', 'run-code']
-ENVS = ['plain', 'outer-trace', 'outer-patchers', 'failpoint-traceback', 'failpoint-feedback']
+ENVS = ['plain', 'outer-trace', 'outer-patchers', 'before-and-after-code', 'failpoint-traceback', 'failpoint-feedback']
 
 
 class InjectedFailure(RuntimeError):
@@ -425,6 +425,9 @@ def drive(sandbox, entry, case):
     """Performs the entry-point call on an already prepared sandbox. Returns the value returned."""
     from pedal.sandbox import commands as sbx
     if entry in ('run', 'import'):
+        if case.get('env') == 'before-and-after-code':
+            # the instructor wraps the student's program between two snippets of her own
+            return sbx.run(inputs=case.get('inputs'), before="pre_marker = 1", after="post_marker = 2")
         return sbx.run(inputs=case.get('inputs'))
     if entry == 'run-code':
         return sbx.run(code=case['mode_body'], inputs=case.get('inputs'))
@@ -695,7 +698,7 @@ def case_matrix(ctx, which):
                     if m['kind'] == 'timeout' and (not threaded or which != 'C05'):
                         continue        # only a threaded execution has a time limit (and only C05 looks at what is left behind)
                     for pos in ('first', 'after-failure', 'after-ok', 'after-clear_context'):
-                        for env in (ENVS if which == 'C05' else ENVS[:3]):
+                        for env in (ENVS if which == 'C05' else ENVS[:4]):
                             if env.startswith('failpoint') and m['kind'] in ('ok',):
                                 continue
                             c = dict(m)
